@@ -21,12 +21,32 @@ GATES = ["serialize_checked", "reparse_checked", "frame_roundtrip_checked", "rep
 NASTY = bytes([0x27, 0x22, 0x5C, 0x00, 0x0A, 0x0D, 0x7F, 0x80, 0xFF, 0x7B, 0x7D, 0x25])
 
 
+_FLUSH = []
+
+
+def _flush_payload():
+    if not _FLUSH:
+        import random
+
+        _FLUSH.append(refmodel.build("1124", random.Random(7), "random", "small", "random",
+                                     force={"DF394": 1 << 62, "DF395": 1 << 30, "DF396": 1}).payload)
+    return _FLUSH[0]
+
+
 def one(ctx, payload, label):
     from pyrtcm import RTCMMessage, RTCMReader
 
+    import zlib
+
+    from vf import refmsm, streams
+
     params = {"payload": payload.hex(), "label": label}
+    # representation of the caller's data, decided by the bytes (replayable); memoryviews are left out here because
+    # the repr of a message built on one is not evaluable on any tree (payloads are bytes-like VALUES in this property)
+    rep = ("bytes", "bytes", "bytearray", "sub")[zlib.crc32(payload) % 4]
+    ctx.hit("rep:" + rep)
     try:
-        m = RTCMMessage(payload=payload)
+        m = RTCMMessage(payload=streams.as_rep(rep, payload))
     except Exception as e:
         if type(e) in common.lib_errors():
             ctx.hit("does_not_parse")
@@ -48,6 +68,18 @@ def one(ctx, payload, label):
                       f"{label} len {len(payload)}: serialize() = {s[:6].hex()}..{s[-3:].hex()} expected "
                       f"{want[:6].hex()}..{want[-3:].hex()} (differs in {where})", params)
         return
+    num = ((payload[0] << 4) | (payload[1] >> 4)) if len(payload) >= 2 else -1
+    if num in refmsm.MSM_NUMBERS:
+        # between serialising and parsing back, the same MSM body arrives from ANOTHER constellation (same masks)
+        others = [n for n in refmsm.MSM_NUMBERS if n % 10 == num % 10 and n != num]
+        o = others[zlib.crc32(payload) % len(others)]
+        twin = bytes([o >> 4, ((o & 0xF) << 4) | (payload[1] & 0x0F)]) + payload[2:]
+        try:
+            RTCMReader.parse(refcrc.frame(_flush_payload()))  # an MSM with unrelated masks first
+            RTCMReader.parse(refcrc.frame(twin))
+            ctx.hit("other_constellation_between")
+        except Exception:
+            pass
     try:
         m2 = RTCMReader.parse(s)
     except Exception as e:
@@ -62,7 +94,7 @@ def one(ctx, payload, label):
                       f"{m.identity}->{m2.identity}, attrs equal={a1 == a2}", params)
         return
     try:
-        m3 = RTCMReader.parse(want)
+        m3 = RTCMReader.parse(streams.as_rep(rep, want))
         s3 = m3.serialize()
     except Exception as e:
         ctx.violation("frame-roundtrip-raised", f"{label}: {type(e).__name__}: {e}", params)
@@ -103,7 +135,7 @@ def one(ctx, payload, label):
                           f"{want[:4].hex()}..{want[-3:].hex()}", params)
             return
     try:
-        m4 = eval(repr(m), {"RTCMMessage": RTCMMessage, "__builtins__": {}})  # noqa: S307
+        m4 = eval(repr(m), {"RTCMMessage": RTCMMessage, "__builtins__": {"bytearray": bytearray}})  # noqa: S307
     except Exception as e:
         ctx.violation("repr-not-evaluable", f"{label}: eval(repr(m)) raised {type(e).__name__}: {e}; "
                       f"repr starts {repr(m)[:60]}", params)
